@@ -20,7 +20,7 @@ import time
 ROOT = os.path.dirname(os.path.dirname(os.path.abspath(__file__)))
 SEEDED = os.path.join(ROOT, os.environ.get("FCV_SEEDED_DIR", "seeded"))  # "refactors" for the false-alarm probes
 REPO = "/repo"
-SCRATCH = "/tmp/seedverify"
+SCRATCH = os.environ.get("FCV_VERIFY_SCRATCH", "/tmp/seedverify")
 
 
 def sh(cmd, **kw):
